@@ -322,7 +322,11 @@ pub fn random_plan(r: &mut Rng, rl: u64, wl: u64, w: &Model, rm: &Model) -> Plan
                 p.block = Some(b);
                 let off: u64 = rm.sizes[..b as usize].iter().sum();
                 let sz = rm.sizes[b as usize];
-                p.seek = Some(off + if sz > 0 { r.below(sz) } else { 0 });
+                // W5: bytes strictly inside the addressed sub-tree; an empty block has no byte
+                // of its own, so no seek is combined with it
+                if sz > 0 {
+                    p.seek = Some(off + r.below(sz));
+                }
             }
         }
         _ => {}
